@@ -382,11 +382,21 @@ class Interp:
             finally:
                 self.exec_block(s.finalbody, env)
         elif isinstance(s, ast.With):
+            exits = []
             for it in s.items:
                 v = self.eval(it.context_expr, env)
+                if isinstance(v, Obj) and isinstance(v.attrs.get("__enter__"), Stub):
+                    # an abstract object with observable enter/exit (e.g. a lock whose held-state a rule tracks)
+                    v.attrs["__enter__"].fn()
+                    if isinstance(v.attrs.get("__exit__"), Stub):
+                        exits.append(v.attrs["__exit__"])
                 if it.optional_vars is not None:
                     self.assign(it.optional_vars, v, env)
-            self.exec_block(s.body, env)
+            try:
+                self.exec_block(s.body, env)
+            finally:
+                for x_ in reversed(exits):
+                    x_.fn()
         elif isinstance(s, (ast.Nonlocal, ast.Global, ast.Import, ast.ImportFrom)):
             pass
         elif isinstance(s, ast.Assert):
